@@ -935,6 +935,7 @@ func (in *Interp) run(fr *Frame) Value {
 	fn := fr.fn
 	in.curFn = fn
 	var prev *ssa.BasicBlock
+	var phiOverride map[*ssa.Phi]Value
 	b := fn.Blocks[0]
 	for {
 		in.visits[b]++
@@ -951,6 +952,10 @@ func (in *Interp) run(fr *Frame) Value {
 				break
 			}
 			nphi++
+			if phiOverride != nil {
+				phiVals = append(phiVals, phiOverride[phi])
+				continue
+			}
 			for i, pred := range b.Preds {
 				if pred == prev {
 					phiVals = append(phiVals, in.get(fr, phi.Edges[i]))
@@ -958,6 +963,7 @@ func (in *Interp) run(fr *Frame) Value {
 				}
 			}
 		}
+		phiOverride = nil
 		for i := 0; i < nphi; i++ {
 			fr.locals[b.Instrs[i].(*ssa.Phi)] = phiVals[i]
 		}
@@ -973,6 +979,14 @@ func (in *Interp) run(fr *Frame) Value {
 			switch x := ins.(type) {
 			case *ssa.If:
 				c := in.get(fr, x.Cond).(*Term)
+				if !c.IsConst() && !in.p.decided(c) {
+					if j, ov, from := in.tryMerge(fr, b, c); j != nil {
+						next = j
+						phiOverride = ov
+						b = from
+						break
+					}
+				}
 				if in.p.Branch(c) {
 					next = b.Succs[0]
 				} else {
@@ -1538,4 +1552,139 @@ func (in *Interp) chanRecv(c ChanV, commaOk bool, t types.Type) Value {
 	}
 	unsup("receive would block forever (deadlock)")
 	return nil
+}
+
+
+// ---------- branch merging (if-conversion of side-effect-free diamonds) ----------
+//
+// A conditional whose sides are either the join block itself or a single-predecessor block made only
+// of pure instructions that jumps to the join block is executed without forking: both sides are
+// evaluated and the join block's phis become ite terms. This covers a && b, a || b, min/max style
+// selections. Anything that would need the solver, could panic, or touches memory other than loads
+// aborts the speculation and falls back to ordinary forking.
+
+type specAbort struct{}
+
+var pureCalls = map[string]bool{"zzvAnd": true, "zzvOr": true, "zzvImplies": true, "zzvIteInt": true, "zzvIteF64": true, "zzvSameBits": true,
+	"math.IsNaN": true, "math.IsInf": true, "math.Abs": true, "math.Float64bits": true, "math.Float64frombits": true, "math.Inf": true, "math.NaN": true}
+
+func pureBlock(b *ssa.BasicBlock) bool {
+	if len(b.Preds) != 1 || len(b.Succs) != 1 {
+		return false
+	}
+	for i, ins := range b.Instrs {
+		if i == len(b.Instrs)-1 {
+			_, ok := ins.(*ssa.Jump)
+			return ok
+		}
+		switch x := ins.(type) {
+		case *ssa.BinOp, *ssa.FieldAddr, *ssa.Field, *ssa.Convert, *ssa.ChangeType, *ssa.Extract, *ssa.IndexAddr, *ssa.Index, *ssa.DebugRef:
+		case *ssa.UnOp:
+			if x.Op == token.ARROW {
+				return false
+			}
+		case *ssa.Call:
+			switch f := x.Call.Value.(type) {
+			case *ssa.Builtin:
+				if f.Name() != "len" && f.Name() != "cap" {
+					return false
+				}
+			case *ssa.Function:
+				if x.Call.IsInvoke() || !(pureCalls[f.Name()] || pureCalls[f.String()]) {
+					return false
+				}
+			default:
+				return false
+			}
+		default:
+			return false
+		}
+	}
+	return false
+}
+
+func (in *Interp) tryMerge(fr *Frame, b *ssa.BasicBlock, c *Term) (join *ssa.BasicBlock, ov map[*ssa.Phi]Value, from *ssa.BasicBlock) {
+	if in.p.noMerge {
+		return nil, nil, nil
+	}
+	s0, s1 := b.Succs[0], b.Succs[1]
+	var j *ssa.BasicBlock
+	// side i is "direct" (the join block itself) or a pure block jumping to the join
+	switch {
+	case in.w.isPure(s0) && s0.Succs[0] == s1:
+		j = s1
+	case in.w.isPure(s1) && s1.Succs[0] == s0:
+		j = s0
+	case in.w.isPure(s0) && in.w.isPure(s1) && s0.Succs[0] == s1.Succs[0]:
+		j = s0.Succs[0]
+	default:
+		return nil, nil, nil
+	}
+	if j == b {
+		return nil, nil, nil
+	}
+	// the join must have phis only for merged values; evaluate both sides speculatively
+	ok := true
+	func() {
+		defer func() {
+			if r := recover(); r != nil {
+				if _, isAbort := r.(specAbort); isAbort {
+					ok = false
+					return
+				}
+				if _, isUnsup := r.(unsupported); isUnsup {
+					ok = false
+					return
+				}
+				panic(r)
+			}
+		}()
+		in.p.spec++
+		defer func() { in.p.spec-- }()
+		sides := []*ssa.BasicBlock{s0, s1}
+		preds := make([]*ssa.BasicBlock, 2)
+		for i, s := range sides {
+			if s == j {
+				preds[i] = b
+				continue
+			}
+			preds[i] = s
+			for _, ins := range s.Instrs[:len(s.Instrs)-1] {
+				in.steps++
+				in.fnInstr[fr.fn]++
+				in.exec(fr, ins)
+			}
+		}
+		ov = map[*ssa.Phi]Value{}
+		for _, ins := range j.Instrs {
+			phi, isPhi := ins.(*ssa.Phi)
+			if !isPhi {
+				break
+			}
+			var vals [2]Value
+			for i := 0; i < 2; i++ {
+				found := false
+				for k, pred := range j.Preds {
+					if pred == preds[i] {
+						vals[i] = in.get(fr, phi.Edges[k])
+						found = true
+						break
+					}
+				}
+				if !found {
+					panic(specAbort{})
+				}
+			}
+			m, good := in.mergeVal(c, vals[0], vals[1])
+			if !good {
+				panic(specAbort{})
+			}
+			ov[phi] = m
+		}
+	}()
+	if !ok {
+		return nil, nil, nil
+	}
+	in.p.run.merged++
+	return j, ov, b
 }
